@@ -109,6 +109,17 @@ show_cst (constant const &c)
 {
   std::string r = "{\"t\":\"c\",\"v\":\"" + show_mpz (c.value ()) + "\",\"d\":";
   r += c.dom () ? jstr (c.dom ()->name ()) : "null";
+  if (c.dom ())
+    {
+      // what constant::operator< looks at: safe_arith and the most enclosing
+      // domain of the value (identified by name and, since names may repeat
+      // across machine-specific domains, by address as an opaque token)
+      constant_dom const *me = c.dom ()->most_enclosing (c.value ());
+      char buf[32];
+      snprintf (buf, sizeof buf, "%p", (void const *) me);
+      r += std::string (",\"ar\":") + (c.dom ()->safe_arith () ? "true" : "false")
+	+ ",\"k\":" + jstr (std::string (me->name ()) + "@" + buf);
+    }
   return r;
 }
 
@@ -355,16 +366,28 @@ make_input (kase const &k, std::string &err)
   zw_stack *stk = zw_stack_init (&e);
   if (!k.dw.empty ())
     {
-      zw_value *dw = k.dwraw ? zw_value_init_dwarf_raw (k.dw.c_str (), 0, &e)
-			     : zw_value_init_dwarf (k.dw.c_str (), 0, &e);
-      if (dw == nullptr)
+      // comma-separated list of files, pushed in order (last one is TOS)
+      size_t i = 0;
+      while (i <= k.dw.size ())
 	{
-	  err = std::string ("cannot open: ") + zw_error_message (e);
-	  zw_error_destroy (e);
-	  zw_stack_destroy (stk);
-	  return nullptr;
+	  size_t j = k.dw.find (',', i);
+	  if (j == std::string::npos)
+	    j = k.dw.size ();
+	  std::string path = k.dw.substr (i, j - i);
+	  i = j + 1;
+	  if (path.empty ())
+	    continue;
+	  zw_value *dw = k.dwraw ? zw_value_init_dwarf_raw (path.c_str (), 0, &e)
+				 : zw_value_init_dwarf (path.c_str (), 0, &e);
+	  if (dw == nullptr)
+	    {
+	      err = std::string ("cannot open: ") + zw_error_message (e);
+	      zw_error_destroy (e);
+	      zw_stack_destroy (stk);
+	      return nullptr;
+	    }
+	  zw_stack_push_take (stk, dw, &e);
 	}
-      zw_stack_push_take (stk, dw, &e);
     }
   if (k.has_in)
     {
